@@ -17,7 +17,7 @@ import (
 func id() string { return os.Getenv("VERIF_ID") }
 
 var (
-	universe  = []string{"f1.txt", "f2.txt", "sub/f3.txt", "extra.txt", "sub/extra.txt", "g1.c", "g2.c", "note.md", ".store/s.txt"}
+	universe  = []string{"f1.txt", "f2.txt", "sub/f3.txt", "extra.txt", "sub/extra.txt", "g1.c", "g2.c", "note.md", ".store/s.txt", "B", "n[1].txt", "n1.txt"}
 	literals  = []string{"f1.txt", "f2.txt", "sub/f3.txt"}
 	globPats  = []string{"*.txt", "sub/*.txt", "**/*.txt", "*.c", "*/*.txt"}
 	contents  = []string{"0", "1", "2"}
@@ -68,6 +68,16 @@ func genCacheCase(t *rapid.T) CacheCase {
 			if rapid.IntRange(0, 2).Draw(t, "taskdep") == 0 {
 				ts.Deps = append(ts.Deps, taskNames[j])
 			}
+		}
+		ts.IdentsFirst = rapid.Bool().Draw(t, "idents_first")
+		if len(ts.Deps) > 0 && ts.Deps[0] == "B" && rapid.IntRange(0, 2).Draw(t, "file_named_like_task") == 0 {
+			ts.Files = append(ts.Files, "B") // a file called B next to the task called B
+			c.Init["B"] = "0"
+		}
+		if rapid.IntRange(0, 7).Draw(t, "bracket_name") == 0 {
+			ts.Files = append(ts.Files, "n[1].txt") // a literal name with characters other glob dialects care about
+			c.Init["n[1].txt"] = "0"
+			c.Init["n1.txt"] = "0"
 		}
 		ts.NCmds = rapid.SampledFrom([]int{0, 1, 1, 1, 2, 2}).Draw(t, "ncmds")
 		if ts.NCmds > 0 && rapid.IntRange(0, 3).Draw(t, "has_side_effect") == 3 {
@@ -452,6 +462,14 @@ func templateCases() []CacheCase {
 				run([]string{"A", "B"}, false, nil), del("g1.c"), wr("g2.c", "0"), fin, fin, del("g2.c"), wr("g1.c", "0"), fin}})
 			out = append(out, CacheCase{Tasks: one, Junk: junk, Init: map[string]string{"b.txt": "0", "g1.c": "0"}, Steps: []Step{
 				run([]string{"A", "B"}, false, nil), wr("g1.c", "1"), fin, wr("g1.c", "0"), fin, fin}})
+		}
+	}
+	// a file named like a task the same task depends on; a literal name with brackets beside its look-alike
+	odd := []TaskSpec{{Name: "A", Files: []string{"B", "b.txt"}, Deps: []string{"B"}, IdentsFirst: true, NCmds: 1}, {Name: "B", Files: []string{"n[1].txt"}, NCmds: 1}}
+	for _, f := range []string{"B", "n[1].txt", "n1.txt"} {
+		for _, fin := range final {
+			out = append(out, CacheCase{Tasks: odd, Init: map[string]string{"B": "0", "b.txt": "0", "n[1].txt": "0", "n1.txt": "0"}, Steps: []Step{
+				run([]string{"A", "B"}, false, nil), wr(f, "1"), fin, fin, wr(f, "0"), fin}})
 		}
 	}
 	// a dependency that is a symbolic link: the target is edited, not the link
